@@ -1,6 +1,7 @@
 //! mc-stm: serves C01, C02 (see /verif/DESIGN.md §4)
 mod c01;
 mod c02;
+mod world;
 
 fn main() {
     let ctx = mc_core::Ctx::from_args();
